@@ -787,7 +787,7 @@ func TestC20(t *testing.T) {
 			"idempotency check precedes the version/key-mode/CAS checks and a hit reports the cached position of the original operation",
 			"only the in-memory map broker is covered",
 		},
-		Cases:  map[string]int{"quick": 6000, "thorough": 60000},
+		Cases:  map[string]int{"quick": 4000, "thorough": 40000},
 		Bubble: true,
 		RequireCounters: []string{
 			"suppress_idempotency", "suppress_version", "suppress_key_exists", "suppress_key_not_found", "suppress_position_mismatch",
